@@ -30,4 +30,12 @@ Adjust(supplied, cur, counts) ==
 Event(st, dir, se, sl) == [enter |-> Adjust(se, st.enter, dir = "ENTER"), leave |-> Adjust(sl, st.leave, dir = "LEAVE")]
 Reset(st) == [enter |-> Some(0), leave |-> Some(0)]
 DefaultInit == [enter |-> Some(0), leave |-> Some(0)]
+
+(* Configuration = the SEQUENCE of options handed to NewModel, each kind at  *)
+(* most once: [kind |-> "init", init |-> totals] (WithInitialEnterLeaveEvent *)
+(* or a resource initial value), [kind |-> "clock"].  Whatever the order,    *)
+(* the totals given are the initial totals.                                  *)
+OptsOf(opts, kind) == SelectSeq(opts, LAMBDA o : o.kind = kind)
+HasOpt(opts, kind) == OptsOf(opts, kind) # <<>>
+ConfInit(opts) == IF HasOpt(opts, "init") THEN OptsOf(opts, "init")[1].init ELSE DefaultInit
 =============================================================================
